@@ -1389,6 +1389,8 @@ assignexpr(struct scope *s)
 		error(&tok.loc, "left side of assignment expression is not an lvalue");
 	if (l->type->incomplete || l->type->kind == TYPEFUNC || l->type->kind == TYPEARRAY)
 		error(&tok.loc, "left side of assignment expression must have complete object type");
+	if (l->qual & QUALCONST)
+		error(&tok.loc, "cannot store to 'const' object");
 	next();
 	r = assignexpr(s);
 	if (!op)
